@@ -10,7 +10,7 @@ from .core import ToolError, log
 # math  : function-level trace validation (real pure functions, production scale)
 # world : system-level trace validation (real contracts in cw-multi-test)
 PROPS = {
-    'C01': dict(mc=[('MC_Pool', None), ('MC_Math', ['swap'])], math=['swap'], world=['random', 'withdraw']),
+    'C01': dict(mc=[('MC_Pool', None), ('MC_Math', ['swap'])], math=['swap'], world=['random', 'withdraw', 'matrix']),
     'C02': dict(mc=[('MC_Pool', None)], world=['matrix', 'random']),
     'C03': dict(mc=[('MC_Pool', None)], world=['random', 'withdraw', 'matrix']),
     'C04': dict(mc=[('MC_Pool', None), ('MC_Math', ['withdraw'])], world=['random', 'withdraw']),
@@ -71,12 +71,12 @@ def mc_math_cfg(fams, tier, dfrac=10):
     return c
 
 
-def mc_pool_cfg(kind, tier):
+def mc_pool_cfg(kind, tier, full=True, depth=None):
     c = core.int_consts()
     c += '  KIND = "%s"\n' % kind
-    c += '  AMTS = %s\n' % ('{0, 1, 2, 3, 5}' if tier == 'thorough' else '{0, 1, 2, 3}')
-    c += '  MAXSTEPS = %d\n' % (4 if tier == 'thorough' else 3)
-    c += '  COMMISSION = 1\n  FULL = TRUE\n  EXPORT = FALSE\n  KeyBytes <- MCKeyBytes\n  AddrOfIndex <- MCAddrOfIndex\n  LEGACY = {}\n'
+    c += '  AMTS = {0, 1, 2, 3}\n'
+    c += '  MAXSTEPS = %d\n' % (depth or 3)
+    c += '  COMMISSION = 1\n  FULL = %s\n  EXPORT = FALSE\n  KeyBytes <- MCKeyBytes\n  AddrOfIndex <- MCAddrOfIndex\n  LEGACY = {}\n' % ('TRUE' if full else 'FALSE')
     c += 'SPECIFICATION Spec\nVIEW View\nPROPERTY StepProp\nINVARIANT C20_State\nCHECK_DEADLOCK FALSE\n'
     return c
 
@@ -133,7 +133,10 @@ def run_mc(pid, tier, workdir):
                 # one pair kind per property in the quick tier (all three kinds are covered across the properties;
                 # the thorough tier runs all of them, one step deeper)
                 kinds = [kinds[int(pid[1:]) % 3]]
-            runs = [('kind=%s' % k, mc_pool_cfg(k, tier)) for k in kinds]
+            runs = [('kind=%s all shapes depth 3' % k, mc_pool_cfg(k, tier)) for k in kinds]
+            if tier == 'thorough':
+                # one step deeper over the well-formed operation shapes
+                runs += [('kind=%s well-formed shapes depth 4' % k, mc_pool_cfg(k, tier, full=False, depth=4)) for k in kinds]
         elif module == 'MC_Router':
             runs = [('3 pairs, routes of 1..3 hops', mc_router_cfg(tier))]
         elif module == 'MC_Factory':
@@ -232,7 +235,7 @@ def check(pid, tier, seed):
             num, depth = (1500, 8) if tier == 'thorough' else (160, 7)
             scs = []
             for k in kinds:
-                cfg = mc_pool_cfg(k, tier).replace('INVARIANT C20_State\n', '').replace('PROPERTY StepProp\n', '').replace('EXPORT = FALSE', 'EXPORT = TRUE')
+                cfg = mc_pool_cfg(k, tier, full=True).replace('INVARIANT C20_State\n', '').replace('PROPERTY StepProp\n', '').replace('EXPORT = FALSE', 'EXPORT = TRUE')
                 cfg = re.sub(r'MAXSTEPS = \d+', 'MAXSTEPS = %d' % depth, cfg)
                 bs = dirb.generate(k, num, depth, seed, os.path.join(workdir, 'simB_' + k), cfg)
                 scs += dirb.scenarios(k, bs, 'modelB-%d' % seed)
